@@ -83,3 +83,70 @@ from .. import aiomix  # noqa: E402
 
 aiomix.install(globals(), 0.2, aiomix.c03_scenarios, lambda r: aiomix.c03_specs(r, c01.tm_tokens),
                note="cyclic jobs (delay=False in 20%) and one-shots of all four kinds; Spec: once_* due instants, cadence of every coroutine start, no task error")
+
+
+# ---- overlapping exec_jobs callers (threading): "no matter how ... irregularly exec_jobs is called" includes calls that overlap -
+# ---- every run is rescheduled exactly once, so after n executions the job is planned for s + (n+1)*T
+from . import c14 as _c14  # noqa: E402
+
+_prev = {k: globals().get(k) for k in ("scenarios", "runner", "specs", "classes", "nontrivial", "project", "direct_specs", "signature")}
+_S1 = 1_000_000
+
+
+def _conc_scenario(rng):
+    scn = _c14.gen_scenario(rng, {"p_exec_heavy": 1.0, "p_batched": 0.0, "p_pause": 0.4})
+    for j in scn["jobs"]:
+        j.update({"call": 0, "timings": [["c", rng.choice([1, 1, 2]) * _S1]]})
+        j.pop("raises", None)
+        j.pop("max_att", None)
+    scn["advance"] = rng.choice([2, 3, 5]) * _S1
+    for ops in scn["threads"]:
+        for o in ops:
+            if o["op"] != "exec":
+                o.clear()
+                o.update({"op": "exec", "force": False})
+    scn["cb_len"] = rng.choice([0, 2, 6])
+    scn["kind"] = "conc"
+    return scn
+
+
+def scenarios(rng, n, tier):  # noqa: F811
+    for scn in _prev["scenarios"](rng, n, tier):
+        yield _conc_scenario(rng) if rng.random() < 0.06 else scn
+
+
+def runner(scn):  # noqa: F811
+    return _c14.runner(scn) if scn.get("kind") == "conc" else _prev["runner"](scn)
+
+
+def specs(r):  # noqa: F811
+    if r["scn"].get("kind") != "conc":
+        return _prev["specs"](r)
+    out = r["obs"][0]
+    if out.get("uncontrollable"):
+        return []
+    if out.get("deadlock") or out.get("error"):
+        return [("spec eq 0 1", {"what": "overlapping callers: deadlock or a thread died", "detail": out.get("deadlock") or out.get("error")})]
+    return _c14.final_due_specs(r["scn"], out) + [("spec eq 0 0", {"what": "overlapping callers: evaluated"})]
+
+
+def classes(r):  # noqa: F811
+    return ["kind:overlapping-callers"] if r["scn"].get("kind") == "conc" else _prev["classes"](r)
+
+
+def nontrivial(r):  # noqa: F811
+    if r["scn"].get("kind") == "conc":
+        return len(r["obs"][0].get("invocations", [])) > 0
+    return _prev["nontrivial"](r)
+
+
+if _prev["project"] is not None:
+    def project(line):  # noqa: F811
+        return _prev["project"](line)
+
+if _prev["direct_specs"] is not None:
+    def direct_specs(r):  # noqa: F811
+        return [] if r["scn"].get("kind") == "conc" else _prev["direct_specs"](r)
+
+RULE += ("; 6% of the scenarios are 2-3 overlapping exec_jobs callers on 1-2 cyclic jobs (thread switches at every source line of the "
+         "execution path, 40% with one long preemption): after n executions a job is planned for s + (n+1)*T")
